@@ -61,7 +61,15 @@ impl Options {
     /// and receiving a corresponding [`Pong`](crate::ws::Message::Pong).
     #[must_use]
     pub fn keepalive_timeout(mut self, timeout: crate::timing::OptionalDuration) -> Self {
-        self.keepalive_timeout = timeout.max(self.keepalive_interval);
+        // `NONE` orders above every duration: without an interval (yet) there is nothing to
+        // clamp to, and the timeout must not silently become "never".
+        // `Multiplexor::new_detailed` clamps again once both values are known.
+        self.keepalive_timeout = if self.keepalive_interval == crate::timing::OptionalDuration::NONE
+        {
+            timeout
+        } else {
+            timeout.max(self.keepalive_interval)
+        };
         self
     }
 
